@@ -9,6 +9,7 @@ rows = []
 for d in sorted(glob.glob(f"{ROOT}/seeded/C*-*")):
     name = os.path.basename(d); pid = name.split("-")[0]
     if ids and pid not in ids: continue
+    if os.environ.get("SEED_ONLY") and not re.search(os.environ["SEED_ONLY"], name): continue
     if not os.path.isdir(f"{ROOT}/harness/{pid.lower()}"): continue
     meta = json.load(open(f"{d}/meta.json"))
     if meta.get("skip_matrix"):
